@@ -85,6 +85,14 @@ CLAIMED['C13'] = dict(design='2/C13', text='convert_inequality_to_equality_with_
     'always-true => moved unchanged and really always true on the box, infeasible error => never true on the box, and that rejected calls leave the instance unchanged.',
     note='R-model; coefficients concrete (Rational64::approximate_float is a concrete model, differentially validated); non-dyadic rationals outside; the defect found (equality constraints '
     'not rejected) was repaired by a fix: commit.')
+CLAIMED['C16'] = dict(design='2/C16', engine='kani+mirsym', technique='Kani/CBMC (SAT over the compiled crate, true IEEE-754) for the additive, scaling and rounding kernels; '
+    'bounded symbolic execution of rustc MIR + z3 (exact reals with inf/NaN rules) for Bound::mul, Bound::pow and Function::evaluate_bound; counterexamples replayed natively',
+    text='Engine K: Kani proves for fully symbolic doubles that Bound::new accepts exactly the valid intervals, as_integer_bound keeps every integer, nearest_to_zero / intersection / '
+    'partial_cmp(f64) / contains follow their rules, and on a restricted-mantissa domain (0, +-inf, 6-bit mantissa, |e|<=8) that Bound+Bound, Bound+f64 and Bound*f64 (non-zero) enclose the '
+    'pointwise result and stay valid. Engine M: the real bodies of Bound::mul, Bound::pow(0..6) and Function::evaluate_bound are executed with every endpoint in {-inf, symbolic, +inf} and '
+    'symbolic points in the box: z3 proves enclosure and validity (no NaN endpoint, ordered, no unwrap panic).',
+    note='Two known findings (Bound + Bound and Bound * f64 panic when finite endpoints near f64::MAX overflow) are detected by full-range Kani probes each run and printed as KNOWN-FINDING; '
+    'content_factor minimality is not solver-decided (concrete only, see evidence); rounding monotonicity outside the R-model half.')
 NOT_APPLICABLE = {
     'C20': 'artifact round-trip lives in ocipkg/tar/sha2/serde_json/chrono and the file system: none of it is in the crate MIR and all of it is foreign/IO under Kani; a model would verify the model, not the code',
 }
